@@ -94,6 +94,9 @@ def gen_cases(tier, seed):
                 for k2 in range(r.randint(0, 2)):
                     par = r.choice([e["p"] for e in spec if e["k"] == "d" and (e["p"] == name or e["p"].startswith(name + "/"))])
                     spec.append({"p": par + "/emptydir%d" % k2, "k": "d"})
+                files_ = [e["p"] for e in spec if e["k"] == "f" and e["p"].startswith(name + "/")]
+                if files_ and r.random() < 0.3:
+                    spec.append({"p": name + "/hardlink-of-sibling", "k": "hard", "target": r.choice(files_)})
             elif shape == "emptydir":
                 spec.append({"p": name, "k": "d"})
             elif shape == "file":
